@@ -218,6 +218,8 @@ xml_get_val_arr(const uint8_t *xml_data, size_t xml_data_size,
 			if (1 != level &&
 			    0 == ee) /* Open some sub tag. */
 				continue;
+			if (cur_tag >= tag_arr_count) /* Sub tag of the target tag. */
+				continue;
 			if (0 != mem_cmpn(tag_arr[cur_tag], tag_arr_cnt[cur_tag],
 			    TagStart, (size_t)((TagNameEnd + 1) - TagStart)))
 				continue; /* Name not match. */
@@ -675,6 +677,8 @@ xml_get_val_ns_arr(const uint8_t *xml_data, size_t xml_data_size,
 			//LOG_EV_FMT("tag cmp (%zu) = %s", ((TagNameEnd + 1) - TagNameStart), TagNameStart);
 			if (1 != level &&
 			    0 == ee) /* Open some sub tag. */
+				continue;
+			if (cur_tag >= tag_arr_count) /* Sub tag of the target tag. */
 				continue;
 			NameSpEnd = mem_chr(TagNameStart,
 			    (size_t)((TagNameEnd + 1) - TagNameStart), ':');
